@@ -812,6 +812,16 @@ class Exec:
     def st_AugAssign(self, st):
         cur = self.eval(_load(st.target))
         v = self.binop(st.op, cur, self.eval(st.value))
+        if isinstance(cur, ArrV) and isinstance(v, ArrV):
+            # numpy in-place operator: the existing array object is overwritten (visible through every alias)
+            vf = v.cur()
+            if cur.view_of is not None:
+                raise OutOfSubset("in-place operator on a view")
+            cur.store(lambda idx: tm.TRUE, vf)
+            self.note_write(cur)
+            if isinstance(st.target, ast.Name):
+                return
+            return  # a[...] op= b / t[key] op= b : the container keeps the same (mutated) array object
         self.assign(st.target, v)
 
     def st_If(self, st):
